@@ -2,6 +2,7 @@ package checks
 
 import (
 	"fmt"
+	"strings"
 
 	"verif/engine/chk"
 	"verif/engine/h1"
@@ -156,6 +157,21 @@ func c19RunPair(alone, with *h1.Scenario, bIdx int) (oa, ow *h1.Obs, diff string
 	return oa, ow, ""
 }
 
+// c19Outcomes: the set of observations of replica B over every execution with at most d deviations.
+func c19Outcomes(sc *h1.Scenario, bIdx int, d int) (map[string]bool, int) {
+	set := map[string]bool{}
+	var o *h1.Obs
+	st := vrt.Explore(d, 0, func(x *vrt.X) { o = h1.Run(sc) }, func(x *vrt.X) bool {
+		var parts []string
+		for c := range sc.Cycles {
+			parts = append(parts, chk.JSON(o.Cycles[c].Reps[bIdx]))
+		}
+		set[strings.Join(parts, "||")] = true
+		return true
+	})
+	return set, st.Executions
+}
+
 func init() {
 	chk.Register("C19", func(c *chk.Ctx) {
 		r := c.R
@@ -199,6 +215,30 @@ func init() {
 						}
 						sig := fmt.Sprintf("C19:dependent:A=%s:order=%s", c19ANames[kind], []string{"A-first", "B-first"}[order])
 						r.Violate(sig, "independence", diff, idx, &c19Replay{Property: "C19", Clause: "independence", Alone: b.sc, With: with, BIndex: bIdx, ObsAlone: oa, ObsWith: ow, Detail: diff})
+					}
+					// with iteration orders and picks deviating (d<=1): the SET of possible observations of B
+					// is the same with and without A
+					if diff == "" && (c.Thorough() || idx%4 == 0) {
+						s0, n0 := c19Outcomes(b.sc, 0, 1)
+						s1, n1 := c19Outcomes(with, bIdx, 1)
+						r.Transitions += int64((n0 + n1) * len(b.sc.Cycles))
+						r.Counters["order_deviation_comparisons"]++
+						for k := range s1 {
+							if !s0[k] {
+								sig := fmt.Sprintf("C19:dependent-under-order-deviation:A=%s", c19ANames[kind])
+								d := fmt.Sprintf("with A present and one order deviation, B can observe something it can never observe alone: %s", k)
+								r.Violate(sig, "independence", d, idx, &c19Replay{Property: "C19", Clause: "independence", Alone: b.sc, With: with, BIndex: bIdx, Detail: d})
+								break
+							}
+						}
+						for k := range s0 {
+							if !s1[k] {
+								sig := fmt.Sprintf("C19:dependent-under-order-deviation:A=%s", c19ANames[kind])
+								d := fmt.Sprintf("an observation B can make alone (with one order deviation) is impossible with A present: %s", k)
+								r.Violate(sig, "independence", d, idx, &c19Replay{Property: "C19", Clause: "independence", Alone: b.sc, With: with, BIndex: bIdx, Detail: d})
+								break
+							}
+						}
 					}
 					// per-replica guarantees hold for each replica in each cycle (run with A present)
 					for name, orc := range map[string]func(*h1.Scenario, *h1.Obs) []Finding{"C01": c01Oracle, "C04": c04Oracle, "C05": c05Oracle, "C07": c07Oracle, "C08": c08Oracle} {
